@@ -129,18 +129,22 @@ def run_call(entry: str, method: typing.Any, url: typing.Any, headers: typing.An
     return net, err
 
 
-def judge_tunnel(rec: Recorder, url: str, tag: str) -> None:
+def judge_tunnel(rec: Recorder, url: str, tag: str, proxy_headers: dict[typing.Any, typing.Any] | None = None) -> None:
     """An https URL requested through a proxy: what is written to the proxy before the tunnel exists must be exactly one
     well-formed CONNECT request naming one host:port, and what follows inside the tunnel exactly one request."""
     import warnings
 
     import urllib3
 
-    case = {"entry": "tunnel", "url": url, "tag": tag}
+    case = {"entry": "tunnel", "url": url, "tag": tag, "proxy_headers": header_items(proxy_headers) if proxy_headers else None}
     err: BaseException | None = None
     with netsim.Net(OkServer(), fake_tls="inner") as net, warnings.catch_warnings():
         warnings.simplefilter("ignore")
-        pm = urllib3.ProxyManager("http://proxy.test:3128", retries=False, cert_reqs="CERT_NONE")
+        try:
+            pm = urllib3.ProxyManager("http://proxy.test:3128", retries=False, cert_reqs="CERT_NONE", **({"proxy_headers": proxy_headers} if proxy_headers else {}))
+        except Exception:  # noqa: BLE001
+            rec.count("rejected_before_any_byte")
+            return
         try:
             pm.request("GET", url, headers={"X-Test": "value"}, retries=False, redirect=False)
         except Exception as e:  # noqa: BLE001
@@ -168,6 +172,20 @@ def judge_tunnel(rec: Recorder, url: str, tag: str) -> None:
     if req.method != b"CONNECT" or not port.isdigit() or not host or any(c <= 0x20 or c == 0x7F for c in host) or any(c <= 0x20 or c == 0x7F for c in b"".join(wire.header_get(req.headers, b"host"))):
         rec.fail(case, "connect-target-malformed", {"method": req.method, "target": req.target}, f"message to the proxy: {req.method!r} {req.target!r} (Host: {wire.header_get(req.headers, b'host')!r})")
         return
+    if proxy_headers is not None:
+        # the CONNECT carries Host plus exactly the configured proxy headers
+        rec.mon("connect_headers")
+        import re as _re
+
+        # (an obs-fold inside a configured value is one field: compared unfolded, as the strict parser reports it)
+        unfold = lambda b: _re.sub(rb"\r?\n[ \t]+|\r[ \t]+", b" ", b).strip(b" \t")  # noqa: E731
+        want = sorted((to_b(k, "latin-1").lower(), unfold(to_b(v, "latin-1"))) for k, v in proxy_headers.items())
+        got0 = [(k, v) for k, v in req.headers]
+        req_headers_unfolded = [(k, unfold(v)) for k, v in got0]
+        got = sorted((k.lower(), v) for k, v in req_headers_unfolded if k.lower() != b"host")
+        if got != want:
+            rec.fail(case, "connect-headers-differ", {"got": got[:6], "want": want[:6]}, f"CONNECT header lines {got[:6]!r} are not the configured proxy headers {want[:6]!r}")
+            return
     if rest:
         reqs, residue, perr = wire.parse_all_requests(rest)
         if perr is not None or len(reqs) > 1 or residue:
@@ -460,6 +478,10 @@ def run_shard(ctx: Ctx, rec: Recorder) -> None:
             {b"Content-Length": b"3"}, {b"transfer-encoding": "chunked", "X": "1"}, {b"X-B": "1", "x-b": "2"},
         ]:
             specials.append((entry, "POST", url0, h, b"abc"))
+            if entry in ("manager", "proxy") and any(isinstance(k, bytes) for k in h) and not any(to_b(k).lower() in FRAMING for k in h):
+                # without a body the manager hands the caller's mapping through untouched: the merge with the
+                # forwarding proxy's own Host/Accept sees the bytes names as they are
+                specials.append((entry, "GET", url0, h, None))
         specials.append((entry, "GET", url0, HTTPHeaderDict([("X-Multi", "1"), ("X-Multi", "2"), ("Cookie", "a=b")]), None))
         for b in [b"plain", "text-é", [b"a", b"", b"bc"], ["s1", "s2"], b"\r\n\r\nGET /smuggled HTTP/1.1\r\nHost: evil\r\n\r\n", [b"0\r\n\r\nGET /smuggled HTTP/1.1\r\n\r\n"], b"", ""]:
             specials.append((entry, "POST", url0, {"X-Body": "1"}, b))
@@ -516,6 +538,17 @@ def run_shard(ctx: Ctx, rec: Recorder) -> None:
                 u = base[:pos] + sym + base[pos:]
                 rec.case(["tunnel-host", u])
                 judge_tunnel(rec, u, "tunnel-host")
+    # hostile characters in the proxy headers that travel with the CONNECT request
+    for hn in insertions("X-Proxy", HOSTILE[:12] + ["\r\nX-Injected: 1", "\r\n\r\nGET /smuggled HTTP/1.1\r\nHost: evil\r\n\r\n"]):
+        ti += 1
+        if ctx.mine(ti):
+            rec.case(["tunnel-proxy-header-name", hn])
+            judge_tunnel(rec, "https://h.test/p", "tunnel-proxy-headers", {hn: "v"})
+    for hv in insertions("token", HOSTILE):
+        ti += 1
+        if ctx.mine(ti):
+            rec.case(["tunnel-proxy-header-value", hv])
+            judge_tunnel(rec, "https://h.test/p", "tunnel-proxy-headers", {"Proxy-Authorization": hv, "X-Other": "1"})
     # empty and tiny bodies under caller-requested chunked framing: the terminating chunk must appear exactly once
     if ctx.shard == 0:
         for entry in entries:
@@ -628,7 +661,8 @@ def replay(case: dict[str, typing.Any], ctx: Ctx, rec: Recorder) -> None:
         body = [b["__bytes__"].encode("latin-1") if isinstance(b, dict) else b for b in body[1:]]
     rec.case(case)
     if case.get("entry") == "tunnel":
-        judge_tunnel(rec, case["url"], "replay")
+        ph = {k: v for k, v in case["proxy_headers"]} if case.get("proxy_headers") else None
+        judge_tunnel(rec, case["url"], "replay", ph)
         return
     if "sequence" in case:
         rec.note_inconclusive("sequence cases are replayed by re-running the check (deterministic enumeration)")
